@@ -240,6 +240,21 @@ func (ex *Exec) scheduleFork(st *State) []*State {
 		return nil
 	}
 	curRunnable := !cur.done && ex.canProceed(st, cur)
+	if ex.cfg.SchedRR && !curRunnable && len(cands) > 1 {
+		// round-robin hand-over: when the running thread blocks or ends, the next runnable
+		// thread in cyclic order takes over (preemptions, within the bound, still go anywhere)
+		best, bestKey := -1, 1<<30
+		for _, i := range cands {
+			k := (i - st.cur + len(st.threads)) % len(st.threads)
+			if k == 0 {
+				k = len(st.threads)
+			}
+			if k < bestKey {
+				best, bestKey = i, k
+			}
+		}
+		cands = []int{best}
+	}
 	var outs []*State
 	for _, i := range cands {
 		cost := 0
